@@ -1,9 +1,16 @@
 import PromModel.Tsdb.HistLayout
 import PromProofs.HistLayout
+import PromProofs.HistSide
+import PromProofs.HistIdxBoth2
+import PromProofs.HistSeries
+import PromProofs.HistChunkRT
+import PromProofs.HistBridge
 /-
   C11 — Native histograms are stored and read back faithfully (layout level).
   Property theorems only; the model is PromModel/Tsdb/HistLayout.lean, lemmas are in
-  PromProofs/HistLayout.lean.  The byte level (stage 2, `HistChunk`) is not modelled: it is covered by
+  PromProofs/HistLayout.lean, HistIdx*.lean (index-level specification of the expand/insert/adjust loops),
+  HistSide.lean, HistChunk.lean (chunk invariant), HistAppend.lean (all outcomes of AppendHistogram),
+  HistSeries.lean (head series, reading back).  The byte level (stage 2, `HistChunk`) is not modelled: it is covered by
   the differential only (every chunk in suite `hist` is a real encoded chunk that is decoded again).
 -/
 namespace Prom.C11
@@ -53,15 +60,27 @@ example : insertLoop false 2 0 0 [5, 7] [⟨1, 1, 0⟩] = .ok [5, 0, 7] := by rf
 /-- …and `insert` panics on leftover inserts that are not at the end, as the Go code does. -/
 theorem insert_panics_on_unsorted_witness : insert true [1, 2] 4 [⟨1, 1, 0⟩, ⟨0, 1, 0⟩] = .error .panic := by rfl
 
-/-- Full statement of `insert_preserves_buckets` at index level (kept visible): recoding a sample with
-    the forward inserts of `expandCounter`/`expandBoth` and the merged spans leaves `bucketMap`
-    unchanged.  Proved above: the value sequence; the index part (merged spans enumerate exactly the
-    union of both layouts) is `expand_sound_full` and is evaluated by the judge on every hook output
-    and implied on every generated sequence by `readback-*` (model = implementation, judge ok). -/
+/-- Full statement of `insert_preserves_buckets` at index level: recoding a sample with the forward inserts of
+    `expandCounter` leaves `bucketMap` unchanged.  Proved below (`insert_preserves_buckets`); the general form
+    for any layout pair, both insert directions and the gauge path is `Prom.Hist.insert_bucketMap` /
+    `applyIns_bucketMap` (PromProofs/HistSide.lean). -/
 def insert_preserves_buckets_full : Prop :=
   ∀ (float : Bool) (a b : List Span) (aB bB : List Int) (f bw : List Insert) (out : List Int),
     expandCounter float a b aB bB = .ok (some (f, bw)) → bw = [] →
     insert (!float) aB (countSpans b) f = .ok out → bucketMap float b out = bucketMap float a aB
+
+/-- **insert_preserves_buckets (index level, full statement).**  Forward recoding with the inserts of
+    `expandInt/FloatSpansAndBuckets` leaves the bucket map (index ↦ populated absolute value) unchanged,
+    for ALL span layouts and bucket slices, both flavours (whenever the Go code does not panic). -/
+theorem insert_preserves_buckets : insert_preserves_buckets_full := by
+  intro float a b aB bB f bw out he hb hi
+  obtain ⟨plan, _, hla, _⟩ := expandCounter_plan float a b aB bB f bw he
+  have hU : idxs b = mergeU (idxs a) (idxs b) := (plan.merge_of_b_nil hb).symm
+  exact (insert_bucketMap float a b (idxs b) hU aB hla f plan.fpos plan.f out hi).2.1
+
+/-- a real forward recoding step: chunk layout {0}, histogram layout {-1,0,2} (the inserts are what
+    `expandCounter false [⟨0, 1⟩] [⟨-1, 2⟩, ⟨1, 1⟩] [5] [1, 5, -4]` returns) -/
+example : insert true [5] 3 [⟨0, 1, -1⟩, ⟨1, 1, 2⟩] = .ok [0, 5, -5] := by rfl
 
 /-- **expand_sound (partial).**  When `expandIntSpansAndBuckets`/`expandFloatSpansAndBuckets` say "ok",
     every bucket of the chunk's last sample is either present in the new histogram with a count that
@@ -72,17 +91,29 @@ theorem expand_sound_partial (float : Bool) (a b : List Span) (aB bB : List Int)
     PairsLe float ((idxs a).zip (absVals float aB)) ((idxs b).zip (absVals float bB)) :=
   expandCounter_no_decrease float a b aB bB r h
 
-/-- Full statement (not proved; the judge evaluates it on the real functions' outputs on every run:
-    `merged-spans`, `insert-order`, `insert-count`, `insert-idx`). -/
+/-- Full statement (proved below as `expand_sound`; the judge also evaluates it on the real functions' outputs on
+    every run: `merged-spans`, `insert-order`, `insert-count`, `insert-idx`). -/
 def expand_sound_full : Prop :=
   ∀ (a b : List Span), (idxs a).Pairwise (· < ·) → (idxs b).Pairwise (· < ·) →
     let (f, bw, m) := expandBoth a b
     (∀ i, i ∈ idxs m ↔ i ∈ idxs a ∨ i ∈ idxs b) ∧ (idxs m).Pairwise (· < ·) ∧
     (f.map (·.pos)).Pairwise (· < ·) ∧ (bw.map (·.pos)).Pairwise (· < ·)
 
-/-- `append_roundtrip`, full statement (not proved beyond the first sample of every chunk — the two
-    theorems above; the judge evaluates exactly this predicate on what the real chunks, head and blocks
-    return, on every run). -/
+/-- **expand_sound (full statement).**  `expandSpansBothWays`: the merged spans enumerate exactly the union of
+    both layouts in strictly increasing order, and both insert lists have strictly increasing positions. -/
+theorem expand_sound : expand_sound_full := by
+  intro a b ha hb
+  have hp := expandBoth_plan a b
+  have hs := expandBoth_pos_sorted a b
+  have h2 : idxs (bothGo (idxs a) (idxs b) BW.init).m.spans = mergeU (idxs a) (idxs b) := hp.2
+  refine ⟨?_, ?_, hs.1, hs.2⟩
+  · intro i; rw [h2]; exact mem_mergeU_iff _ _ i
+  · rw [h2]; exact mergeU_sorted _ _ ha hb
+
+/-- `append_roundtrip` as originally written: over ALL `Hist` values and any `cuts` list.  Proved for valid
+    histograms (`append_roundtrip`, `append_roundtrip_zip`); false without validity
+    (`append_roundtrip_full_witness`).  The judge evaluates exactly this predicate on what the real chunks, head
+    and blocks return, on every run. -/
 def append_roundtrip_full : Prop :=
   ∀ (samples : List (Int × Hist)) (cuts : List Bool) (s : Series),
     (samples.zip cuts).foldlM (fun (st : Series) (p : (Int × Hist) × Bool) =>
@@ -90,6 +121,74 @@ def append_roundtrip_full : Prop :=
     (s.read.map (·.1)) = samples.map (·.1) ∧
     ∀ p ∈ s.read.zip samples, (p.2.2.stale = true → p.1.2.stale = true) ∧
       (p.2.2.stale = false → p.1.2.sem = p.2.2.sem)
+
+/-- **append_roundtrip.**  For every sequence of valid histograms (`WFs`: bucket slices match their spans, spans
+    enumerate strictly increasing indices, no negative-zero threshold/bounds, custom bounds only with the custom
+    schema; staleness markers unconstrained) and every head-level cut oracle, appended through the transcribed
+    `memSeries.appendHistogram` → `AppendHistogram`/`AppendFloatHistogram` with all four outcomes (append | recode
+    the chunk forward | recode the incoming histogram backward | cut a new chunk), reading the series back
+    yields, sample by sample, the same timestamp, a staleness marker for a staleness marker, and otherwise a
+    histogram with the same meaning (`Sem`: flavour, schema, zero threshold bits, count, zero count, sum bits,
+    bucket maps of both sides, custom bounds). -/
+theorem append_roundtrip (ops : List ((Int × Hist) × Bool)) (s : Series) (hwf : ∀ p ∈ ops, WFs p.1.2)
+    (h : runSeries ops Series.empty = .ok s) : All2 RdRel s.read (ops.map (·.1)) := by
+  obtain ⟨gs, inv, hf⟩ := runSeries_inv ops Series.empty [] trivial hwf s h
+  have := SInv.read_rel _ gs inv
+  rw [hf] at this
+  simpa [Series.read, Series.chunks] using this
+
+/-- the hypotheses are satisfiable by a run that exercises forward recoding: {0} then {-1,0,2} -/
+example : ∃ s, runSeries
+    [((1, { float := false, hint := .unknown, schema := 0, zt := 0, count := 5, zcount := 0, sum := 0,
+            pSpans := [⟨0, 1⟩], nSpans := [], pB := [5], nB := [], custom := [] }), false)] Series.empty = .ok s :=
+  ⟨_, by simp [runSeries, Series.append, Series.empty, appendHist, Chunk.empty, Chunk.num, bind, Except.bind,
+    pure, Except.pure, Except.map]; rfl⟩
+
+/-- `append_roundtrip` in the shape of `append_roundtrip_full`: literally that statement, plus validity of the
+    samples and a cut oracle value for every sample (`zip` truncates otherwise). -/
+theorem append_roundtrip_zip (samples : List (Int × Hist)) (cuts : List Bool) (s : Series)
+    (hwf : ∀ p ∈ samples, WFs p.2) (hlen : samples.length ≤ cuts.length)
+    (h : (samples.zip cuts).foldlM (fun (st : Series) (p : (Int × Hist) × Bool) =>
+      (st.append p.2 p.1.1 p.1.2).map (·.1)) Series.empty = .ok s) :
+    (s.read.map (·.1)) = samples.map (·.1) ∧
+    ∀ p ∈ s.read.zip samples, (p.2.2.stale = true → p.1.2.stale = true) ∧
+      (p.2.2.stale = false → p.1.2.sem = p.2.2.sem) := by
+  have hm : (samples.zip cuts).map (·.1) = samples := by
+    rw [List.map_fst_zip]; exact hlen
+  have := append_roundtrip (samples.zip cuts) s (fun p hp => hwf p.1 (List.of_mem_zip hp).1) h
+  rw [hm] at this
+  exact ⟨this.map_fst, fun p hp => (this.zip_mem p hp).2⟩
+
+/-- The literal `append_roundtrip_full` (no validity hypothesis) is false: IEEE `==` in `appendable` accepts a
+    zero threshold of -0.0 into a chunk whose threshold is +0.0, and the sample is read back with +0.0 — the
+    same number, but not the same bits (`Sem` compares bits).  `Histogram.Validate` accepts -0.0. -/
+theorem append_roundtrip_full_witness : ¬ append_roundtrip_full := by
+  intro hfull
+  let hA : Hist := { float := false, hint := .unknown, schema := 0, zt := 0, count := 1, zcount := 1, sum := 0,
+                     pSpans := [], nSpans := [], pB := [], nB := [], custom := [] }
+  let hB : Hist := { hA with zt := 2 ^ 63, count := 2, zcount := 2 }
+  have hrun : ([(1, hA), (2, hB)].zip [false, false]).foldlM (fun (st : Series) (p : (Int × Hist) × Bool) =>
+      (st.append p.2 p.1.1 p.1.2).map (·.1)) Series.empty =
+      .ok ⟨[], some { float := false, hdr := .unknown, schema := 0, zt := 0, custom := [], pSpans := [], nSpans := [],
+                       rev := [⟨2, 2, 2, 0, [], []⟩, ⟨1, 1, 1, 0, [], []⟩] }⟩ := by
+    simp [hA, hB, Series.append, Series.empty, appendHist, Chunk.empty, Chunk.num, Chunk.appendRaw, Hist.stale,
+      staleBits, Chunk.appendable, Chunk.last, cLt, fEq, fIsNaN, fKey, customSchema, expandCounter, pairs, idxs,
+      idxsFrom, absVals, prefixSums, prefixFrom, expandGo, CW.init, CW.finish, bind, Except.bind, pure, Except.pure,
+      Except.map]
+  have := (hfull _ _ _ hrun).2
+  simp [Series.read, Series.chunks, Chunk.read, readFrom, Chunk.histOf, staleBits, hintOf, hA, hB, Hist.stale,
+    Hist.sem] at this
+
+/-- **caller_unchanged** for ALL samples of a run (not only chunk-starting ones): in every state reachable by
+    appending valid histograms, `memSeries.appendHistogram` hands a staleness marker back untouched and any other
+    valid histogram back with the same meaning (backward recoding replaces spans and bucket slices but not
+    `Sem`). -/
+theorem caller_unchanged (ops : List ((Int × Hist) × Bool)) (s : Series) (hwf : ∀ p ∈ ops, WFs p.1.2)
+    (hrun : runSeries ops Series.empty = .ok s) (cut : Bool) (t : Int) (h : Hist) (hw : WFs h)
+    (s' : Series) (h' : Hist) (o : Outcome) (hr : s.append cut t h = .ok (s', h', o)) :
+    (h.stale = true → h' = h) ∧ (h.stale = false → h'.sem = h.sem) := by
+  obtain ⟨gs, inv, _⟩ := runSeries_inv ops Series.empty [] trivial hwf s hrun
+  exact (Series.append_inv s gs inv cut t h hw s' h' o hr).2
 
 /-- **caller_unchanged (partial).**  Whenever the sample starts a chunk the caller's histogram is
     returned untouched.  (Backward recoding replaces spans and bucket slices by `adjustForInserts`/
@@ -103,5 +202,85 @@ theorem caller_unchanged_partial (t : Int) (h : Hist) (r : AppRes)
   · by_cases hr' : h.hint = .reset
     · simp [hr'] at hr; subst hr; rfl
     · simp [hg, hr'] at hr; subst hr; rfl
+
+/-! ## stage 2: the bytes -/
+
+/-- **histchunk_roundtrip (integer histogram chunks, exponential schemas).**  `Prom.HistChunk.encodeChunk` is the
+    transcription of `HistogramAppender.appendHistogram`/`writeHistogramChunkLayout` on C10's bit stream (compared
+    byte for byte with the real `HistogramChunk.Bytes()` in suite `histbytes`), `decodeChunk` the transcription of
+    `histogramIterator.Next`/`readHistogramChunkLayout`.  For every chunk whose values stay inside ±2^61 (so that
+    no delta-of-delta wraps), whose layout is encodable (no -0.0 threshold, not the custom-bounds schema) and whose
+    stored samples have the shape the appender produces (bucket slices as long as the layout, staleness markers
+    empty and only at the end), decoding the encoded bytes gives back exactly the chunk: header, layout, every
+    sample.  Together with `append_roundtrip` this is the bit-level leg of "stored and read back faithfully". -/
+theorem histchunk_roundtrip (c : Chunk) (s0 : Stored) (ss : List Stored) (ok : Prom.HistChunk.ChunkOk c s0 ss) :
+    Prom.HistChunk.decodeChunk (Prom.HistChunk.encodeChunk c) = some c :=
+  Prom.HistChunk.decodeChunk_encodeChunk c s0 ss ok
+
+/-- **histchunk_roundtrip (float histogram chunks, exponential schemas).**  The same for `FloatHistogramAppender` /
+    `floatHistogramIterator` (every value an `xorValue` with its own window): for float chunks whose samples have the
+    appender's shape (values are 64-bit patterns, staleness markers empty), decoding the encoded bytes gives back
+    exactly the chunk.  (No ordering condition on staleness markers is needed here.) -/
+theorem histchunk_roundtrip_float (c : Chunk) (s0 : Stored) (ss : List Stored) (ok : Prom.HistChunk.ChunkOkF c s0 ss) :
+    Prom.HistChunk.decodeChunkF (Prom.HistChunk.encodeChunk c) = some c :=
+  Prom.HistChunk.decodeChunkF_encodeChunk c s0 ss ok
+
+/-- **From appended histograms to bytes and back** (`append_roundtrip` ∘ `histchunk_roundtrip`).  Every chunk of a
+    head series built by the transcribed appender from valid integer histograms far inside the int64 range
+    (`SmallH`: |t| < 2^61, counts < 2^61, absolute bucket counts in [0, 2^60), exponential schema, span lists that
+    fit the layout encoding over bucket indices inside ±2^40) — whatever was cut, recoded forward or backward — is
+    decoded from its encoded bytes exactly.  All hypotheses are about the appended histograms; that the merged
+    layouts built by `adjustForInserts`/`expandSpansBothWays` stay encodable is part of the proof
+    (`runSeries_layouts`).  Reading the decoded chunks therefore returns the appended histograms
+    (`append_roundtrip`). -/
+theorem bytes_roundtrip (ops : List ((Int × Hist) × Bool)) (s : Series) (hwf : ∀ p ∈ ops, WFs p.1.2)
+    (hsm : ∀ p ∈ ops, Prom.HistChunk.SmallH p.1) (hrun : runSeries ops Series.empty = .ok s) :
+    ∀ c ∈ s.chunks, Prom.HistChunk.decodeChunk (Prom.HistChunk.encodeChunk c) = some c :=
+  Prom.HistChunk.series_bytes_roundtrip' ops s hwf hsm hrun
+
+/-- the same for float histograms (`SmallHF`: counts, sum and bucket values are 64-bit patterns, exponential schema,
+    encodable span lists over bucket indices inside ±2^40) -/
+theorem bytes_roundtrip_float (ops : List ((Int × Hist) × Bool)) (s : Series) (hwf : ∀ p ∈ ops, WFs p.1.2)
+    (hsm : ∀ p ∈ ops, Prom.HistChunk.SmallHF p.1) (hrun : runSeries ops Series.empty = .ok s) :
+    ∀ c ∈ s.chunks, Prom.HistChunk.decodeChunkF (Prom.HistChunk.encodeChunk c) = some c :=
+  Prom.HistChunk.series_bytes_roundtrip_float ops s hwf hsm hrun
+
+/-- `SmallH` is met by an ordinary histogram: schema 3, buckets {-2,-1,1} with counts 2,5,6 -/
+example : Prom.HistChunk.SmallH
+    (1000, Hist.mk false .unknown 3 0 13 0 0x402a000000000000 [⟨-2, 2⟩, ⟨1, 1⟩] [] [2, 3, 1] [] []) := by
+  have lb : Prom.HistChunk.LayoutBound [⟨-2, 2⟩, ⟨1, 1⟩] := by
+    refine ⟨⟨?_, by decide⟩, by decide, by decide⟩
+    intro s hs
+    simp only [List.mem_cons, List.not_mem_nil, or_false] at hs
+    rcases hs with rfl | rfl <;> exact ⟨by simp only [Prom.Bits.I64, Prom.Bits.two63]; omega, by decide⟩
+  refine ⟨by simp only [Prom.HistChunk.Sm]; omega, rfl, by decide, by decide, by decide, by decide,
+    ⟨by simp only [Prom.Bits.I64, Prom.Bits.two63]; omega, by decide⟩, ⟨lb, Prom.HistChunk.LayoutBound.nil⟩, ?_, ?_⟩
+  · intro v hv
+    simp only [prefixSums, prefixFrom, List.mem_cons, List.not_mem_nil, or_false] at hv
+    rcases hv with rfl | rfl | rfl <;> omega
+  · intro v hv; simp [prefixSums, prefixFrom] at hv
+
+/-- the hypotheses are met by a concrete two-sample chunk -/
+example : Prom.HistChunk.ChunkOk
+    { float := false, hdr := .notReset, schema := 3, zt := 0, custom := [], pSpans := [⟨-2, 1⟩], nSpans := [],
+      rev := [⟨2000, 12, 1, 0x4028000000000000, [5], []⟩, ⟨1000, 7, 1, 0x401c000000000000, [2], []⟩] }
+    ⟨1000, 7, 1, 0x401c000000000000, [2], []⟩ [⟨2000, 12, 1, 0x4028000000000000, [5], []⟩] := by
+  have i64 : ∀ x : Int, -1000 ≤ x → x ≤ 1000 → Prom.Bits.I64 x := by
+    intro x h1 h2; simp only [Prom.Bits.I64, Prom.Bits.two63]; omega
+  have sm : ∀ x : Int, -3000 ≤ x → x ≤ 3000 → Prom.HistChunk.Sm x := by
+    intro x h1 h2; simp only [Prom.HistChunk.Sm]; omega
+  refine ⟨rfl, by decide, ⟨by decide, by decide, i64 _ (by decide) (by decide), by decide, rfl, ?_,
+    (by intro s hs; simp [Prom.HistChunk.layoutOf] at hs), by decide, by decide⟩, rfl, ⟨rfl, rfl⟩, ?_, ⟨fun h => by simp [staleBits] at h, trivial⟩⟩
+  · intro s hs
+    simp only [Prom.HistChunk.layoutOf, List.mem_singleton] at hs
+    subst hs
+    exact ⟨i64 _ (by decide) (by decide), by decide⟩
+  · intro s hs
+    simp only [List.mem_cons, List.not_mem_nil, or_false] at hs
+    rcases hs with rfl | rfl
+    · exact ⟨sm _ (by decide) (by decide), by decide, by decide, by decide, fun h => by simp [staleBits] at h,
+        fun _ => ⟨rfl, rfl, fun b hb => by simp at hb; subst hb; exact sm _ (by decide) (by decide), by simp⟩⟩
+    · exact ⟨sm _ (by decide) (by decide), by decide, by decide, by decide, fun h => by simp [staleBits] at h,
+        fun _ => ⟨rfl, rfl, fun b hb => by simp at hb; subst hb; exact sm _ (by decide) (by decide), by simp⟩⟩
 
 end Prom.C11
